@@ -191,6 +191,7 @@ def parse_optional_parameters(**allowed_kwargs: Sequence) -> Callable:
 
 def parse_spectrum(spectrum: Sequence, omega: Sequence, idx: Sequence) -> ndarray:
     error = 'Spectrum should be of shape {}, not {}.'
+    spectrum = np.asanyarray(spectrum)
     shape = (len(idx),)*(spectrum.ndim - 1) + (len(omega),)
     try:
         spectrum = np.broadcast_to(spectrum, shape)
